@@ -167,6 +167,18 @@ CLAIMED["C14"] = (
     "simulator is re-executed by TLC.",
     "DESIGN.md §5 C14")
 
+CLAIMED["C19"] = (
+    "model_checking",
+    "reference byte-at-a-time deframers for LUBA and SCI in TLA+ (SerialRx) with resynchronisation properties checked "
+    "exhaustively over noise prefixes; real receivers fed grammar-guided and random streams under 5 chunkings each and "
+    "their four queues compared by TLC with the reference (RxJudge)",
+    "Streams cover valid frames of every type and payload length, corrupt checksums, truncation, noise with and "
+    "without start bytes, every value 0..255 in the length position, each followed by a well-formed frame that must "
+    "still be delivered; any exception escaping data_received is a violation.",
+    "Trusted: TLC; my reading of the LUBA / SCI framing (taken from the driver's protocol comments and Lunatone's "
+    "public description); checksum-valid frames malformed for their type are set aside as the property says.",
+    "DESIGN.md §5 C19")
+
 NOT_YET = {}
 
 
